@@ -70,6 +70,18 @@ theorem tie_writeBlockSkel : writeBlockSkel =
    "call tmpfile.Name",
    "return",
    "}",
+   "call v.os.OpenFile => oldf,err",
+   "if err == nil {",
+   "defer",
+   "call v.lockfile => err",
+   "if err != nil {",
+   "call v.os.Remove",
+   "call tmpfile.Name",
+   "return",
+   "}",
+   "defer",
+   "call v.unlockfile",
+   "}",
    "call v.os.Rename => err",
    "call tmpfile.Name",
    "if err != nil {",
@@ -90,6 +102,7 @@ theorem tie_writeBlockReturns : writeBlockReturns =
    "err",
    "err",
    "err",
+   "fmt.Errorf(\"error locking %s: %s\", bpath, err)",
    "err",
    "nil"] := rfl
 
@@ -144,7 +157,9 @@ theorem tie_trashStrings : trashStrings =
 /-- Untrash's prefix test (Model.isTrashLike / untrashEvs) -/
 theorem tie_untrashStrings : untrashStrings =
   ["readdir",
-   "%v.trash."] := rfl
+   "%v.trash.",
+   "utimes",
+   "Untrash(%s): block restored, but updating its timestamp failed"] := rfl
 
 /-- Untrash renames the first entry with that prefix and stops at the first success (Model.untrashEvs) -/
 theorem tie_untrashConds : untrashConds =
@@ -153,6 +168,7 @@ theorem tie_untrashConds : untrashConds =
    "if len(files) == 0",
    "if strings.HasPrefix(f.Name(), prefix)",
    "if err == nil",
+   "if tserr != nil",
    "if foundTrash == false"] := rfl
 
 /-- EmptyTrash: regexp must match with 2 groups, deadline must have passed, walk descends into hex-named directories only (Model.emptyTrashVictims) -/
@@ -332,7 +348,7 @@ def statsCalls : List String :=
 def fsCalls (l : List String) : List String := l.filter (fun c => !statsCalls.contains c)
 
 /-- The ordered FS-call skeleton of WriteBlock — MkdirAll, TempFile, io.Copy, [Close, Remove],
-Close, [Remove], Chtimes, [Remove], Rename, [Remove] — is the list the model numbers its points by. -/
+Close, [Remove], Chtimes, [Remove], OpenFile(bpath), lockfile, [Remove], unlockfile, Rename, [Remove] — is the list the model numbers its points by. -/
 theorem tie_writeBlockCalls : fsCalls writeBlockCalls = skeleton .writeBlock := by decide
 theorem tie_touchCalls : fsCalls touchCalls = skeleton .touch := by decide
 theorem tie_trashCalls : fsCalls trashCalls = skeleton .trash := by decide
